@@ -55,6 +55,7 @@ type history struct {
 	nProbes   int
 	known     []rangeT // every range used so far (live or removed), in order of first use
 	flags     map[string]bool
+	long      bool // the line contains run-length groups
 	scribble  bool // overwrite the caller's slices after every call: the filter must not keep them by reference
 }
 
@@ -341,7 +342,11 @@ func (h *history) newRange(minOnes int) rangeT {
 }
 
 func (h *history) emit(kind string) {
-	h.e.Case(append([]string{"E"}, h.toks...)...)
+	tag := "E"
+	if h.long {
+		tag = "L" // run-length encoded: judged by the driver, never sampled for the in-Coq cross-check
+	}
+	h.e.Case(append([]string{tag}, h.toks...)...)
 	h.e.Count("histories", 1)
 	h.e.Count("histories_"+kind, 1)
 	h.e.Count("ops", h.nOps)
@@ -907,6 +912,167 @@ func churn(e *hk.Env, r *hk.Rng) {
 	e.Stats["long_history_judged_by"] = "Go-side live-set map (specification only; not replayed in the extracted model)"
 }
 
+// ---- "repeated lookup across N updates" ----
+//
+// Contains(a); exactly N successful non-/0 updates, one of which changes a's membership (first / in the
+// middle / last), the others unrelated (Add X / Remove X pairs, removals of an absent range); Contains(a)
+// again with NO other address looked up in between; then a twice in a row and a / b alternating.
+// N runs over 1, 2, 255, 256, 257, 65535, 65536, 65537, 131072 (thorough: also 2^24), in list mode and in
+// map mode, with 4- and 16-byte probes.  The unrelated updates are written as run-length groups
+// ("*n*A:..,R:..") which the driver expands: the extracted model and specification judge every answer.
+
+// n times the group of calls; every repetition must return nil
+func (h *history) repeat(n int, group []wcall) {
+	if n <= 0 || len(group) == 0 {
+		return
+	}
+	toks := make([]string, len(group))
+	for i, c := range group {
+		k := "R"
+		if c.add {
+			k = "A"
+		}
+		toks[i] = fmt.Sprintf("%s:%s:%s:0", k, hk.Hx(c.rg.ip[:]), hk.Hx(net.CIDRMask(c.rg.ones, 32)))
+	}
+	ip, mask := make([]byte, 4), make([]byte, 4)
+	for i := 0; i < n; i++ {
+		for _, c := range group {
+			copy(ip, c.rg.ip[:])
+			copy(mask, net.CIDRMask(c.rg.ones, 32))
+			var code int
+			if c.add {
+				code = h.callAdd(ip, mask)
+				if c.rg.ones > 0 {
+					h.validAdds++
+				}
+			} else {
+				code = h.callRemove(ip, mask)
+			}
+			h.nOps++
+			if code != 0 && !h.flags["repeat_failed"] {
+				h.flags["repeat_failed"] = true
+				h.e.Case("VIOL", "repeated-update-failed", fmt.Sprintf("seed=%d", h.e.Seed), fmt.Sprintf("repetition=%d", i), toks[0], fmt.Sprintf("code=%d", code))
+			}
+		}
+	}
+	if n == 1 {
+		h.toks = append(h.toks, toks...)
+	} else {
+		h.toks = append(h.toks, fmt.Sprintf("*%d*%s", n, strings.Join(toks, ",")))
+		h.long = true
+	}
+}
+
+type wcall struct {
+	add bool
+	rg  rangeT
+}
+
+// exactly c unrelated successful updates
+func (h *history) unrelated(c int, mapsMode bool, x, y rangeT) {
+	if c <= 0 {
+		return
+	}
+	if mapsMode {
+		h.repeat(c/2, []wcall{{true, x}, {false, x}})
+		h.repeat(c%2, []wcall{{false, y}})
+		return
+	}
+	// list mode: an Add would use up a slot, so mostly removals of a range that is not there
+	pairs := min(c/2, h.r.Intn(8))
+	h.repeat(pairs, []wcall{{true, x}, {false, x}})
+	h.repeat(c-2*pairs, []wcall{{false, y}})
+}
+
+func repeatedLookup(e *hk.Env, r *hk.Rng, n int, mapsMode bool, pos int, light bool) {
+	h := newHistory(e, r)
+	h.scribble = false
+	a := rangeT{ip: [4]byte{10, 9, 8, byte(r.Intn(256))}, ones: 20 + r.Intn(13)}
+	b := rangeT{ip: [4]byte{10, 77, 8, byte(r.Intn(256))}, ones: 20 + r.Intn(13)}
+	x := rangeT{ip: [4]byte{10, 200, byte(r.Intn(256)), 1}, ones: 24 + r.Intn(9)}
+	y := rangeT{ip: [4]byte{10, 201, byte(r.Intn(256)), 1}, ones: 24 + r.Intn(9)}
+	if mapsMode { // 257 slots, then most of them removed again: map mode with a small live set
+		var pre []rangeT
+		for i := 0; i < 257; i++ {
+			rg := rangeT{ip: [4]byte{172, byte(16 + i%16), byte(i / 16), byte(r.Intn(256))}, ones: 24 + r.Intn(9)}
+			pre = append(pre, rg)
+			h.add(rg)
+		}
+		for i := 0; i < 250; i++ {
+			h.remove(pre[i])
+		}
+	} else {
+		for i := 0; i < r.Intn(6); i++ {
+			h.add(rangeT{ip: [4]byte{172, byte(16 + i), 0, byte(r.Intn(256))}, ones: 24 + r.Intn(9)})
+		}
+	}
+	present := r.Bool()
+	if present {
+		h.add(a)
+	}
+	if r.Bool() {
+		h.add(b)
+	}
+	pa := u32b(a.first() | uint32(r.Intn(256))&^maskOf(a.ones))
+	pb := u32b(b.first())
+	if r.Chance(40) {
+		pa = append([]byte{}, net.IP(pa).To16()...)
+	}
+	look := func(p []byte) { h.probe(append([]byte{}, p...)) }
+	for round := 0; round < 2 && !(light && round > 0); round++ {
+		look(pa)
+		if r.Bool() {
+			look(pa) // twice in a row before the updates as well
+		}
+		before := []int{0, (n - 1) / 2, n - 1}[pos]
+		h.unrelated(before, mapsMode, x, y)
+		if present {
+			h.remove(a)
+		} else {
+			h.add(a)
+		}
+		present = !present
+		h.unrelated(n-1-before, mapsMode, x, y)
+		look(pa) // the same address, nothing else looked up in between
+		look(pa)
+		look(pb)
+		look(pa)
+		look(pb)
+		look(pa)
+		if round == 0 && n > 1 && !light { // exactly n updates that do not change a
+			h.unrelated(n, mapsMode, x, y)
+			look(pa)
+		}
+		pos = (pos + 1) % 3
+	}
+	h.flags[fmt.Sprintf("repeated_lookup_across_%d_updates", n)] = true
+	if mapsMode {
+		h.flags["repeated_lookup_map_mode"] = true
+	} else {
+		h.flags["repeated_lookup_list_mode"] = true
+	}
+	h.emit("repeated_lookup")
+}
+
+func repeatedLookups(e *hk.Env) {
+	ns := []int{1, 2, 255, 256, 257, 65535, 65536, 65537, 131072}
+	for _, n := range ns {
+		for _, mapsMode := range []bool{false, true} {
+			reps := 1
+			if n <= 257 {
+				reps = 3
+			}
+			for k := 0; k < reps; k++ {
+				r := e.Rng.Fork()
+				repeatedLookup(e, r, n, mapsMode, (k+r.Intn(3))%3, false)
+			}
+		}
+	}
+	if e.Thorough() {
+		repeatedLookup(e, e.Rng.Fork(), 1<<24, false, 1, true) // one round, list mode: ~17 M observations for the driver
+	}
+}
+
 func runC11(e *hk.Env) error {
 	if e.Replay != "" {
 		return replayFile(e, e.Replay)
@@ -943,6 +1109,7 @@ func runC11(e *hk.Env) error {
 		}
 	}
 	churn(e, e.Rng.Fork())
+	repeatedLookups(e)
 	e.Stats["cases"] = e.Stats["histories"]
 	e.Sample("samples", "history kinds: small (1-40 ops, pool of 1-6 ranges, /0../32), crossing (250-300 distinct ranges, removal bursts before/at/after the 256th slot), crossing_fewlens (1-3 prefix lengths before the switch, other lengths after), long (50-600 random ops), dupfill (256 copies, zeroed, migrated), duppattern (Add X, Add Y, Add X, Remove X and variants)", 5)
 	return nil
